@@ -9,6 +9,7 @@
 From Coq Require Import ZArith Znumtheory List Bool Lia.
 From GmsmVerif Require Import Lib.Outcome EC.ECAffine EC.SM2Curve EC.ECAffineProofs EC.JacFormulas
   EC.P256Model EC.P256Proofs EC.P256Instance EC.WnafProofs EC.BaseMultProofs EC.TableCheck EC.C03Final
+  EC.LimbModel EC.LimbProofs Gen.P256Limbs
   Gen.SM2Params Gen.P256Tables.
 Import ListNotations.
 Open Scope Z_scope.
@@ -268,4 +269,49 @@ Example C03_examples_scalar :
   ScalarBaseMult_model [11]%N = Ok (encode_point (sm2_base_mul 11)) /\
   ScalarBaseMult_model []%N = Ok (0, 0) /\
   GenerateKey_model (repeat 0%N 39) = Err 1.
+Proof. vm_compute. repeat split; reflexivity. Qed.
+
+(* ==== LIMB LAYER =====================================================================================================
+   The 9-limb 28/29-bit code of sm2/p256.go, translated mechanically from the Go AST (Gen/P256Limbs.v, regenerated on
+   every run by harness/cmd/gen/target_sm2limbs.go; EC/LimbModel.v wraps it as list functions), with explicit uint32 /
+   uint64 wrap-around.  limbs_valueN l = sum l[i] 2^off(i), off = 0,29,57,86,...; "loose" = limb i < 2^30 (even i) /
+   < 2^29 (odd i): the bound invariant every function accepts and re-establishes. *)
+Theorem C03_limb_Add : forall a b : list N, looseL a -> looseL b ->
+  looseL (sm2P256Add_limbs a b) /\
+  limbs_valueN (sm2P256Add_limbs a b) mod sm2_p = (limbs_valueN a + limbs_valueN b) mod sm2_p.
+Proof. exact Add_limbs_correct. Qed.
+Print Assumptions C03_limb_Add.
+
+(* Sub adds sm2P256Zero31 (0 mod p, every limb >= twice the limb modulus) so that no limb difference underflows *)
+Theorem C03_limb_Sub : forall a b : list N, looseL a -> looseL b ->
+  looseL (sm2P256Sub_limbs a b) /\
+  limbs_valueN (sm2P256Sub_limbs a b) mod sm2_p = (limbs_valueN a - limbs_valueN b) mod sm2_p.
+Proof. exact Sub_limbs_correct. Qed.
+Print Assumptions C03_limb_Sub.
+
+(* the schoolbook products: exact integer product in the 17 x uint64 array, no uint64 overflow, and the bounds
+   sm2P256ReduceDegree needs (every word < 2^63, the top word < 2^60) *)
+Theorem C03_limb_products : forall a b : list N, looseL a -> looseL b ->
+  (largeOK (sm2P256Mul_product a b) /\ large_valueN (sm2P256Mul_product a b) = limbs_valueN a * limbs_valueN b) /\
+  (largeOK (sm2P256Square_product a) /\ large_valueN (sm2P256Square_product a) = limbs_valueN a * limbs_valueN a).
+Proof. intros a b Ha Hb. split; [apply Mul_product_correct|apply Square_product_correct]; assumption. Qed.
+Print Assumptions C03_limb_products.
+
+(* FromBig: 9 normalised limbs with value a*2^257 mod p (Montgomery form, R = 2^257); ToBig(FromBig a) = a mod p *)
+Theorem C03_limb_FromBig_ToBig : forall a : Z,
+  looseL (sm2P256FromBig_limbs a) /\
+  limbs_valueN (sm2P256FromBig_limbs a) = (a * 2 ^ 257) mod sm2_p /\
+  sm2P256ToBig_limbs (sm2P256FromBig_limbs a) = a mod sm2_p.
+Proof.
+  intros a. destruct (FromBig_limbs_correct a) as (_ & _ & H1 & H2).
+  split; [apply FromBig_loose|]. split; assumption.
+Qed.
+Print Assumptions C03_limb_FromBig_ToBig.
+
+Example C03_limb_examples :
+  sm2P256Add_limbs [1; 0; 0; 0; 0; 0; 0; 0; 536870911]%N [536870911; 268435455; 0; 0; 0; 0; 0; 0; 536870911]%N
+    = [2; 0; 536870657; 2047; 0; 0; 0; 33554432; 536870910]%N /\
+  sm2P256ToBig_limbs (sm2P256Sub_limbs (sm2P256FromBig_limbs 0) (sm2P256FromBig_limbs 1)) = sm2_p - 1 /\
+  sm2P256ToBig_limbs (sm2P256Mul_limbs (sm2P256FromBig_limbs 3) (sm2P256FromBig_limbs 5)) = 15 /\
+  sm2P256ToBig_limbs (sm2P256Square_limbs (sm2P256FromBig_limbs (sm2_p - 1))) = 1.
 Proof. vm_compute. repeat split; reflexivity. Qed.
